@@ -1,4 +1,7 @@
 import SunriseVerif.Model.Convert
+import SunriseVerif.Model.Mint
+import SunriseVerif.Lemmas.Dec
+import SunriseVerif.Gen.FactsBan
 /-!
 C13 — RISE/vRISE supply.  Part 1: conversion is exactly 1:1 and atomic (model of keeper_convert.go,
 tied to the code by the `convert` correspondence suite).
@@ -68,5 +71,308 @@ theorem convertReverse_combined_invariant (b b' : Bank) (holder : Addr) (bond fe
 
 /-- non-vacuity: a concrete successful conversion -/
 example : (convert "uvrise" "urise" (Bank.empty.credit "a0" "uvrise" 10) "a0" 3).isOk = true := by decide
+
+end Sunrise.C13
+
+/-! ## Part 2: minting (kernels regenerated from app/mint/{mint,inflation}.go; Model/Mint.lean) -/
+namespace Sunrise.C13
+open Sunrise.Mint Sunrise.Gen.KernelsMint Sunrise.Gen.KernelsGovFee
+
+/-- the rate cap the regenerated function uses: max(minimum, initial·(1−disinflation)^years) -/
+def rateCap (years : Int) (init minimum dis : Dec) : Dec :=
+  if Dec.lt (inflationRateCapRaw init dis years) minimum then minimum else inflationRateCapRaw init dis years
+
+/-- the two clamps of CalculateAnnualProvision applied to a candidate next supply `n` -/
+def clip (cap total n : Int) : Int :=
+  let n1 := if n > cap then cap else n
+  let n2 := if n1 < total then total else n1
+  n2 - total
+
+/-- the regenerated function is: next = ⌊(1+rateCap)·supply⌋, clipped to the cap from above and to the supply from below -/
+theorem annualProvision_eq (years : Int) (init minimum dis : Dec) (cap total : Int) :
+    CalculateAnnualProvision years init minimum dis cap total
+      = clip cap total (nextSupplyRaw (rateCap years init minimum dis) total) := by
+  unfold CalculateAnnualProvision rateCap clip nextSupplyRaw inflationRateCapRaw
+  simp only []
+  split
+  · rename_i hlt
+    try simp only [hlt, if_true]
+    generalize Dec.truncateInt (Dec.mulInt (Dec.add Dec.one minimum) total) = t
+    simp only [decide_eq_true_eq]
+    repeat' split
+    all_goals omega
+  · rename_i hlt
+    try simp only [hlt, if_false]
+    generalize Dec.truncateInt (Dec.mulInt (Dec.add Dec.one (Dec.mul init (Dec.powerI (Dec.sub Dec.one dis) years))) total) = t
+    simp only [decide_eq_true_eq]
+    repeat' split
+    all_goals omega
+
+theorem clip_bounds (cap total n : Int) :
+    0 ≤ clip cap total n ∧ (total ≤ cap → total + clip cap total n ≤ cap) ∧ (clip cap total n ≤ n - total ∨ clip cap total n = 0) := by
+  unfold clip
+  simp only []
+  split <;> split <;> omega
+
+/-- ⌊(1+r)·supply⌋ − supply ≤ r·supply -/
+theorem nextSupplyRaw_le (r : Dec) (total : Int) (ht : 0 ≤ total) (hr : 0 ≤ r.raw) :
+    (nextSupplyRaw r total - total) * PREC ≤ r.raw * total := by
+  have hnn : 0 ≤ (Dec.mulInt (Dec.add Dec.one r) total).raw := by
+    simp only [Dec.mulInt, Dec.add, Dec.one]
+    exact Int.mul_nonneg (by have := Dec.PREC_pos; omega) ht
+  have hb := Dec.truncateInt_nonneg_bounds _ hnn
+  unfold nextSupplyRaw
+  simp only [Dec.mulInt, Dec.add, Dec.one] at hb ⊢
+  have e : (PREC + r.raw) * total = PREC * total + r.raw * total := Int.add_mul _ _ _
+  generalize Dec.truncateInt ⟨(PREC + r.raw) * total⟩ = t at hb ⊢
+  rw [e] at hb
+  generalize r.raw * total = X at hb ⊢
+  have e2 : (t - total) * PREC = PREC * t - PREC * total := by
+    rw [Int.sub_mul, Int.mul_comm, Int.mul_comm total PREC]
+  rw [e2]; omega
+
+/-- ANNUAL PROVISION (regenerated `CalculateAnnualProvision`, every parameter universally quantified):
+    never negative; never lifts a supply that is within the cap above the cap; at most rateCap·supply. -/
+theorem annualProvision_bounds (years : Int) (init minimum dis : Dec) (cap total : Int) :
+    0 ≤ CalculateAnnualProvision years init minimum dis cap total
+    ∧ (total ≤ cap → total + CalculateAnnualProvision years init minimum dis cap total ≤ cap)
+    ∧ (0 ≤ total → 0 ≤ (rateCap years init minimum dis).raw →
+        CalculateAnnualProvision years init minimum dis cap total * PREC ≤ (rateCap years init minimum dis).raw * total) := by
+  rw [annualProvision_eq]
+  obtain ⟨h1, h2, h3⟩ := clip_bounds cap total (nextSupplyRaw (rateCap years init minimum dis) total)
+  refine ⟨h1, h2, ?_⟩
+  intro ht hr
+  have hk := nextSupplyRaw_le (rateCap years init minimum dis) total ht hr
+  have hx : 0 ≤ (rateCap years init minimum dis).raw * total := Int.mul_nonneg hr ht
+  cases h3 with
+  | inl h =>
+    have := Int.mul_le_mul_of_nonneg_right h (Int.le_of_lt Dec.PREC_pos)
+    omega
+  | inr h => rw [h]; simpa using hx
+
+example : annual 0 900000000000000 = 90000000000000 := by decide
+example : annual 0 950000000000000 = 50000000000000 := by decide   -- clipped by the cap
+example : annual 30 100000000000000 = 2000000000000 := by decide   -- minimum rate 2 %
+
+/-- PRO-RATING (regenerated `blockProvision`): never negative, and at most annual·Δs/secondsPerYear -/
+theorem blockProvision_bounds (ann secs : Int) (ha : 0 ≤ ann) (hs : 0 ≤ secs) :
+    0 ≤ blockProvision ann secs ∧ blockProvision ann secs * secondsPerYear ≤ ann * secs := by
+  unfold blockProvision
+  have hn : 0 ≤ ann * secs := Int.mul_nonneg ha hs
+  rw [Int.tdiv_eq_ediv_of_nonneg hn]
+  have hy : (0:Int) < secondsPerYear := by decide
+  refine ⟨Int.ediv_nonneg hn (Int.le_of_lt hy), ?_⟩
+  exact Int.ediv_mul_le _ (Int.ne_of_gt hy)
+
+/-- one step never mints more than the annual provision (the clamp) nor more than the pro-rated share -/
+theorem provision_bounds (genesisNs nowNs : Int) (s : St) :
+    provision genesisNs nowNs s ≤ annual (yearsSinceGenesis genesisNs nowNs) (totalSupply s.supBond s.supFee)
+    ∧ provision genesisNs nowNs s ≤
+        blockProvision (annual (yearsSinceGenesis genesisNs nowNs) (totalSupply s.supBond s.supFee))
+          (unix nowNs - s.last.getD (unix nowNs - 60)) := by
+  unfold provision clampBlock
+  simp only []
+  split <;> omega
+
+/-- SPLIT (regenerated `feeProvision`, `bondProvision`), for every ratio in [0,1] and every non-negative block provision:
+    fee + bond = block (nothing lost), fee = ⌊ratio·block⌋, both parts non-negative -/
+theorem split_exact (ratio : Dec) (block : Int) (hr0 : 0 ≤ ratio.raw) (hr1 : ratio.raw ≤ PREC) (hb : 0 ≤ block) :
+    feeProvision ratio block + bondProvision block (feeProvision ratio block) = block
+    ∧ feeProvision ratio block = ratio.raw * block / PREC
+    ∧ 0 ≤ feeProvision ratio block ∧ 0 ≤ bondProvision block (feeProvision ratio block) := by
+  have hx : 0 ≤ ratio.raw * block := Int.mul_nonneg hr0 hb
+  have hf : feeProvision ratio block = ratio.raw * block / PREC := by
+    unfold feeProvision Dec.truncateInt Dec.mulInt Dec.chopTrunc
+    exact Dec.tquo_nonneg_eq hx (Int.le_of_lt Dec.PREC_pos)
+  have hle : ratio.raw * block ≤ PREC * block := Int.mul_le_mul_of_nonneg_right hr1 hb
+  have h1 : ratio.raw * block / PREC ≤ PREC * block / PREC := Int.ediv_le_ediv Dec.PREC_pos hle
+  rw [Int.mul_ediv_cancel_left _ (Int.ne_of_gt Dec.PREC_pos)] at h1
+  have h0 : 0 ≤ ratio.raw * block / PREC := Int.ediv_nonneg hx (Int.le_of_lt Dec.PREC_pos)
+  unfold bondProvision
+  rw [hf]
+  exact ⟨by omega, rfl, h0, by omega⟩
+
+example : feeProvision ⟨333333333333333333⟩ 10 = 3 ∧ bondProvision 10 3 = 7 := by decide
+
+/-- what one call mints in each denom -/
+def mintedFee (ratio : Dec) (g n : Int) (s : St) : Int := (mintFn ratio g n s).supFee - s.supFee
+def mintedBond (ratio : Dec) (g n : Int) (s : St) : Int := (mintFn ratio g n s).supBond - s.supBond
+
+/-- MINTING IS NEVER NEGATIVE (any ratio, any times, any state) -/
+theorem provision_nonneg (ratio : Dec) (g n : Int) (s : St) :
+    0 ≤ mintedFee ratio g n s ∧ 0 ≤ mintedBond ratio g n s := by
+  unfold mintedFee mintedBond mintFn
+  simp only []
+  split
+  · simp only []; constructor <;> split <;> omega
+  · simp
+
+/-- NOTHING LOST: for ratio in [0,1] the two mints add up to exactly the step's provision (or nothing is minted) -/
+theorem minted_total (ratio : Dec) (g n : Int) (s : St) (hr0 : 0 ≤ ratio.raw) (hr1 : ratio.raw ≤ PREC) :
+    mintedFee ratio g n s + mintedBond ratio g n s = max 0 (provision g n s)
+    ∧ (0 < provision g n s → mintedFee ratio g n s = ratio.raw * provision g n s / PREC) := by
+  unfold mintedFee mintedBond mintFn
+  simp only []
+  split
+  · rename_i hp
+    obtain ⟨h1, h2, h3, h4⟩ := split_exact ratio (provision g n s) hr0 hr1 (by omega)
+    simp only []
+    refine ⟨?_, fun _ => ?_⟩
+    · split <;> split <;> omega
+    · split <;> omega
+  · rename_i hp
+    simp only [Int.sub_self]
+    exact ⟨by omega, fun h => absurd h hp⟩
+
+/-- NEVER ABOVE THE CAP: whatever the elapsed time (also gaps of many years), a supply within the cap stays within the cap -/
+theorem never_above_cap (ratio : Dec) (g n : Int) (s : St) (hr0 : 0 ≤ ratio.raw) (hr1 : ratio.raw ≤ PREC)
+    (hcap : s.supFee + s.supBond ≤ SupplyCap) :
+    (mintFn ratio g n s).supFee + (mintFn ratio g n s).supBond ≤ SupplyCap := by
+  obtain ⟨ht, _⟩ := minted_total ratio g n s hr0 hr1
+  obtain ⟨hp, _⟩ := provision_bounds g n s
+  have hb := (annualProvision_bounds (yearsSinceGenesis g n) InflationRateCapInitial InflationRateCapMinimum DisinflationRate
+    SupplyCap (totalSupply s.supBond s.supFee)).2.1
+  have ha := (annualProvision_bounds (yearsSinceGenesis g n) InflationRateCapInitial InflationRateCapMinimum DisinflationRate
+    SupplyCap (totalSupply s.supBond s.supFee)).1
+  unfold mintedFee mintedBond at ht
+  unfold annual at hp
+  unfold totalSupply at hb hp ha
+  have := hb (by omega)
+  omega
+
+/-- above the cap nothing is minted -/
+theorem no_mint_above_cap (ratio : Dec) (g n : Int) (s : St) (hr0 : 0 ≤ ratio.raw) (hr1 : ratio.raw ≤ PREC)
+    (hcap : SupplyCap ≤ s.supFee + s.supBond) :
+    mintedFee ratio g n s + mintedBond ratio g n s = 0 := by
+  obtain ⟨ht, _⟩ := minted_total ratio g n s hr0 hr1
+  obtain ⟨hp, _⟩ := provision_bounds g n s
+  have hann : annual (yearsSinceGenesis g n) (totalSupply s.supBond s.supFee) = 0 := by
+    unfold annual
+    rw [annualProvision_eq]
+    unfold clip totalSupply
+    simp only []
+    split <;> split <;> omega
+  omega
+
+/-- NEVER MORE THAN THE PRO-RATED ANNUAL CAP: minted·secondsPerYear·10^18 ≤ rateCap·supply·Δs, Δs = seconds since the stored last mint -/
+theorem le_prorated_annual_cap (ratio : Dec) (g n : Int) (s : St) (hr0 : 0 ≤ ratio.raw) (hr1 : ratio.raw ≤ PREC)
+    (hsup : 0 ≤ s.supFee + s.supBond) (hsecs : 0 ≤ unix n - s.last.getD (unix n - 60))
+    (hrate : 0 ≤ (rateCap (yearsSinceGenesis g n) InflationRateCapInitial InflationRateCapMinimum DisinflationRate).raw) :
+    (mintedFee ratio g n s + mintedBond ratio g n s) * secondsPerYear * PREC ≤
+      (rateCap (yearsSinceGenesis g n) InflationRateCapInitial InflationRateCapMinimum DisinflationRate).raw
+        * (s.supFee + s.supBond) * (unix n - s.last.getD (unix n - 60)) := by
+  obtain ⟨ht, _⟩ := minted_total ratio g n s hr0 hr1
+  obtain ⟨_, hp⟩ := provision_bounds g n s
+  have hab := annualProvision_bounds (yearsSinceGenesis g n) InflationRateCapInitial InflationRateCapMinimum DisinflationRate
+    SupplyCap (totalSupply s.supBond s.supFee)
+  have htot : totalSupply s.supBond s.supFee = s.supFee + s.supBond := by unfold totalSupply; omega
+  rw [htot] at hab hp
+  obtain ⟨ha0, _, ha2⟩ := hab
+  have ha2 := ha2 hsup hrate
+  unfold annual at hp
+  generalize CalculateAnnualProvision (yearsSinceGenesis g n) InflationRateCapInitial InflationRateCapMinimum DisinflationRate
+    SupplyCap (s.supFee + s.supBond) = A at *
+  generalize (rateCap (yearsSinceGenesis g n) InflationRateCapInitial InflationRateCapMinimum DisinflationRate).raw = R at *
+  generalize unix n - s.last.getD (unix n - 60) = D at *
+  generalize s.supFee + s.supBond = T at *
+  obtain ⟨hb0, hb1⟩ := blockProvision_bounds A D ha0 hsecs
+  generalize blockProvision A D = B at *
+  generalize mintedFee ratio g n s + mintedBond ratio g n s = M at *
+  have hM : M ≤ B := by omega
+  have hM0 : 0 ≤ M := by omega
+  have hy : (0:Int) ≤ secondsPerYear := by decide
+  -- M·Y·P ≤ B·Y·P ≤ A·D·P = (A·P)·D ≤ (R·T)·D
+  have s1 : M * secondsPerYear * PREC ≤ B * secondsPerYear * PREC :=
+    Int.mul_le_mul_of_nonneg_right (Int.mul_le_mul_of_nonneg_right hM hy) (Int.le_of_lt Dec.PREC_pos)
+  have s2 : B * secondsPerYear * PREC ≤ A * D * PREC :=
+    Int.mul_le_mul_of_nonneg_right hb1 (Int.le_of_lt Dec.PREC_pos)
+  have s3 : A * D * PREC = A * PREC * D := by rw [Int.mul_assoc, Int.mul_comm D PREC, ← Int.mul_assoc]
+  have s4 : A * PREC * D ≤ R * T * D := Int.mul_le_mul_of_nonneg_right ha2 hsecs
+  omega
+
+example : (mintFn ⟨500000000000000000⟩ 0 (31536000 * 1000000000) ⟨400000000000000, 500000000000000, some 31535940⟩) =
+    ⟨400000078767123, 500000078767123, some 31536000⟩ := by decide
+-- a ten-year gap next to the cap: the clamp keeps the supply at the cap
+example : let s' := mintFn ⟨500000000000000000⟩ 0 (315360000 * 1000000000) ⟨490000000000000, 500000000000000, some 0⟩
+    s'.supFee + s'.supBond = SupplyCap := by decide
+
+end Sunrise.C13
+
+/-! ## Part 3: the transfer ban as a decision table.
+    `Gen/FactsBan.lean` (regenerated by svx/facts_ban.go on every run) lists EVERY `bankKeeper.Send*` call site of the custom
+    modules with whether an `IsSendEnabledCoins` check dominates it. Below, every site is classified by hand; the theorem
+    decides that (a) no site is unclassified (a new call site breaks the proof), (b) every site that moves coins of a denom
+    chosen by the message sender between a user and a pool is dominated by a send-enabled check ON THE SAME COINS, (c) coins
+    derived from a checked coin are dominated by some check, (d) no classification entry is stale.
+    The classes that need no syntactic guard are justified next to the constructor and exercised by the `ban` suite on the
+    real application (every message kind attempted with `uvrise` and a share denom). -/
+namespace Sunrise.C13
+open Sunrise.Gen.FactsBan
+
+inductive SiteClass
+  | guardedUserDenom  -- denom chosen by the sender (pool deposit / withdrawal / swap in / swap out): needs the same-coins check
+  | guardedDerived    -- coin in the denom of an already checked coin (swap fee in TokenIn's denom): needs a dominating check
+  | routed            -- x/swap interface fee / IBC payout: the denom is the in/out denom of a pool swap executed by the same
+                      -- message, where liquiditypool's guarded sites reject send-disabled denoms first (dynamic check)
+  | feePayment        -- fee deduction user → fee_collector MODULE account (C18; not a transfer between users)
+  | fixedDenom        -- denom fixed by code or params: fee denom (converter, selfdelegation, shareclass), DA collateral,
+                      -- share tokens minted/burned through the shareclass module account for their owner
+  | moduleFlow        -- module → module, or payout of protocol-chosen coins from a module-controlled account
+deriving DecidableEq, Repr
+
+def classification : List (String × String × Nat × SiteClass) := [
+  ("app/mint/mint.go", "ProvideMintFn", 0, .moduleFlow),
+  ("app/mint/mint.go", "ProvideMintFn", 1, .moduleFlow),
+  ("x/da/keeper/abci.go", "Keeper.ChangeToVerifiedFromProofPeriod", 0, .fixedDenom),
+  ("x/da/keeper/abci.go", "Keeper.TallyValidityProofs", 0, .fixedDenom),
+  ("x/da/keeper/abci.go", "Keeper.TallyValidityProofs", 1, .fixedDenom),
+  ("x/da/keeper/abci.go", "Keeper.TallyValidityProofs", 2, .fixedDenom),
+  ("x/da/keeper/msg_server_publish_data.go", "msgServer.PublishData", 0, .fixedDenom),
+  ("x/da/keeper/msg_server_submit_invalidity.go", "msgServer.SubmitInvalidity", 0, .fixedDenom),
+  ("x/fee/ante/fee.go", "DeductFees", 0, .feePayment),
+  ("x/fee/keeper/keeper_burn.go", "Keeper.Burn", 0, .moduleFlow),
+  ("x/liquiditypool/keeper/keeper_fee.go", "Keeper.collectFees", 0, .moduleFlow),
+  ("x/liquiditypool/keeper/keeper_incentives.go", "Keeper.AllocateIncentive", 0, .moduleFlow),
+  ("x/liquiditypool/keeper/keeper_position.go", "Keeper.DecreaseLiquidity", 0, .guardedUserDenom),
+  ("x/liquiditypool/keeper/keeper_swap.go", "Keeper.updatePoolForSwap", 0, .guardedUserDenom),
+  ("x/liquiditypool/keeper/keeper_swap.go", "Keeper.updatePoolForSwap", 1, .guardedDerived),
+  ("x/liquiditypool/keeper/keeper_swap.go", "Keeper.updatePoolForSwap", 2, .guardedUserDenom),
+  ("x/liquiditypool/keeper/msg_server_create_position.go", "msgServer.CreatePosition", 0, .guardedUserDenom),
+  ("x/selfdelegation/keeper/msg_server_self_delegate.go", "msgServer.SelfDelegate", 0, .fixedDenom),
+  ("x/selfdelegation/keeper/msg_server_withdraw_self_delegation_unbonded.go", "msgServer.WithdrawSelfDelegationUnbonded", 0, .fixedDenom),
+  ("x/shareclass/keeper/keeper_claim.go", "Keeper.ClaimRewards", 0, .moduleFlow),
+  ("x/shareclass/keeper/keeper_delegate.go", "Keeper.ConvertAndDelegate", 0, .fixedDenom),
+  ("x/shareclass/keeper/keeper_rewards.go", "Keeper.HandleModuleAccountRewardsByValidator", 0, .moduleFlow),
+  ("x/shareclass/keeper/keeper_withdraw.go", "Keeper.WithdrawUnbonded", 0, .fixedDenom),
+  ("x/shareclass/keeper/msg_server_non_voting_delegate.go", "msgServer.NonVotingDelegate", 0, .fixedDenom),
+  ("x/shareclass/keeper/msg_server_non_voting_undelegate.go", "msgServer.NonVotingUndelegate", 0, .fixedDenom),
+  ("x/swap/keeper/ibc.go", "Keeper.SwapIncomingFund", 0, .routed),
+  ("x/swap/keeper/keeper_swap_exact_amount_in.go", "Keeper.SwapExactAmountIn", 0, .routed),
+  ("x/swap/keeper/keeper_swap_exact_amount_out.go", "Keeper.SwapExactAmountOut", 0, .routed),
+  ("x/tokenconverter/keeper/keeper_convert.go", "Keeper.Convert", 0, .fixedDenom),
+  ("x/tokenconverter/keeper/keeper_convert.go", "Keeper.Convert", 1, .fixedDenom),
+  ("x/tokenconverter/keeper/keeper_convert.go", "Keeper.ConvertReverse", 0, .fixedDenom),
+  ("x/tokenconverter/keeper/keeper_convert.go", "Keeper.ConvertReverse", 1, .fixedDenom)
+]
+
+def classify (s : SendSite) : Option SiteClass :=
+  (classification.find? fun (f, fn, n, _) => f == s.file && fn == s.fn && n == s.nth).map fun (_, _, _, c) => c
+
+def siteOk (s : SendSite) : Bool :=
+  match classify s with
+  | none => false
+  | some .guardedUserDenom => s.guardedSame
+  | some .guardedDerived => s.guardedAny
+  | some _ => true
+
+/-- THE BAN TABLE IS DECIDED: every regenerated call site is classified and carries the guard its class requires -/
+theorem ban_table_decided : ∀ s ∈ sendSites, siteOk s = true := by decide
+
+/-- no stale classification: every classified key is a call site of the current tree -/
+theorem ban_classification_current :
+    ∀ k ∈ classification, (sendSites.any fun s => s.file == k.1 && s.fn == k.2.1 && s.nth == k.2.2.1) = true := by decide
+
+/-- the guarded class is not empty (non-vacuity): pool deposit, withdrawal, swap in, swap out -/
+example : (sendSites.filter fun s => classify s == some .guardedUserDenom).length = 4 := by decide
 
 end Sunrise.C13
